@@ -1163,6 +1163,9 @@ def same(a, b):
         return mk_bool(a._ref == b._ref)
     if isinstance(a, ObjProxy) or isinstance(b, ObjProxy):
         return False
+    if isinstance(a, T.SymAny) and isinstance(b, T.SymAny):
+        # opaque values: two wrappers of one term are the same value (wrappers are created per read)
+        return mk_bool(a.t == b.t)
     return a is b
 
 
